@@ -61,6 +61,7 @@ def main():
     expect_pass = False
     tests_only = False
     save_corpus = False
+    primary_only = False
     respath_override = None
     i = 0
     while i < len(args):
@@ -82,6 +83,8 @@ def main():
             expect_pass = True; i += 1
         elif args[i] == "--save-corpus":
             save_corpus = True; i += 1
+        elif args[i] == "--primary-only":
+            primary_only = True; i += 1
         elif args[i] == "--results":
             respath_override = args[i + 1]; i += 2
         else:
@@ -99,6 +102,8 @@ def main():
             results = {}
     for m in muts:
         props = [p for p in m["props"] if not props_filter or p in props_filter]
+        if primary_only:
+            props = props[:1]
         if tests_only and isinstance(results.get(m["name"]), dict) and results[m["name"]].get("tests_pass") is not None:
             continue
         if skip_done and not tests_only:
